@@ -60,7 +60,7 @@ def good (m : M) : Bool :=
   (!m.facade || (m.spa && m.spaConn && (m.fmon == .ready || m.fmon == .tornDown))) &&
   (!m.spaConn || m.spa) && m.fmon != .built && (m.sensor == m.status.isSome) && (m.radio == m.chan)
 
-def idleClean (m m' : M) : Bool :=
+def idleClean (_m m' : M) : Bool :=
   m'.state == .IDLE && !m'.facade && !m'.spa && !m'.spaConn && !m'.desc
 
 def resetLands (m : M) (b : Base) (r : RunRes) : Bool :=
@@ -81,8 +81,9 @@ def chunkAt (cs : List (List M)) (j : Nat) : Option M := (cs[j / 16]?).bind (·[
 def reachList : List M := reachChunks.flatten
 
 def edgeOk (T : Table) (m : M) (b : Base) (j : Nat) : Bool :=
-  let r := stepB T m b
-  chunkAt reachChunks j == some r.m && callOk m b r
+  !enabled m b ||
+  (let r := stepB T m b
+   chunkAt reachChunks j == some r.m && callOk m b r)
 
 def rowOk (T : Table) (m : M) (row : List Nat) : Bool :=
   row.length == (allBase T).length && ((allBase T).zip row).all fun p => edgeOk T m p.1 p.2
@@ -97,5 +98,50 @@ theorem inits_in : ((inits table).all fun m => reachList.contains m) = true := b
 
 set_option maxRecDepth 1000000 in
 theorem reach_good : (reachList.all good) = true := by decide +kernel
+
+/-! ## from the evaluated certificate to statements about every state of `R` and every enabled call -/
+
+theorem exists_zip_of_mem {α β : Type} : ∀ (l1 : List α) (l2 : List β), l1.length = l2.length → ∀ a, a ∈ l1 →
+    ∃ b, (a, b) ∈ l1.zip l2
+  | [], _, _, a, h => by cases h
+  | x :: xs, [], hl, _, _ => by simp at hl
+  | x :: xs, y :: ys, hl, a, h => by
+      rcases List.mem_cons.1 h with rfl | h'
+      · exact ⟨y, by simp⟩
+      · obtain ⟨b, hb⟩ := exists_zip_of_mem xs ys (by simpa using hl) a h'
+        exact ⟨b, by simp [hb]⟩
+
+theorem chunkAt_mem (cs : List (List M)) (j : Nat) (m : M) (h : chunkAt cs j = some m) : m ∈ cs.flatten := by
+  unfold chunkAt at h
+  cases hc : cs[j / 16]? with
+  | none => simp [hc] at h
+  | some c =>
+      simp [hc] at h
+      exact List.mem_flatten.2 ⟨c, List.mem_of_getElem? hc, List.mem_of_getElem? h⟩
+
+/-- the one-step obligation, for every state of `R` and every enabled call of the alphabet -/
+theorem edge (m : M) (b : Base) (hm : m ∈ reachList) (hb : b ∈ allBase table) (he : enabled m b = true) :
+    (stepB table m b).m ∈ reachList ∧ callOk m b (stepB table m b) = true := by
+  have h := edges_ok
+  rw [Bool.and_eq_true] at h
+  obtain ⟨hl, hall⟩ := h
+  obtain ⟨row, hrow⟩ := exists_zip_of_mem reachList reachSucc (by simpa using hl) m hm
+  have hr := List.all_eq_true.1 hall _ hrow
+  simp only [rowOk, Bool.and_eq_true] at hr
+  obtain ⟨hlen, hz⟩ := hr
+  have hlen' : (allBase table).length = row.length := by
+    have : row.length = (allBase table).length := by simpa using hlen
+    exact this.symm
+  obtain ⟨j, hj⟩ := exists_zip_of_mem (allBase table) row hlen' b hb
+  have he' := List.all_eq_true.1 hz _ hj
+  simp only [edgeOk, he, Bool.not_true, Bool.false_or, Bool.and_eq_true] at he'
+  obtain ⟨h1, h2⟩ := he'
+  exact ⟨chunkAt_mem _ _ _ (by simpa using h1), h2⟩
+
+theorem init_mem (m : M) (h : m ∈ inits table) : m ∈ reachList := by
+  have := List.all_eq_true.1 inits_in m h
+  simpa using this
+
+theorem good_of_mem (m : M) (h : m ∈ reachList) : good m = true := List.all_eq_true.1 reach_good m h
 
 end GeckoModel.Lifecycle
